@@ -1305,6 +1305,8 @@ def meddler_fields(eng, tid):
 
 # ------------------------------------------------------------------------------------------- intrinsics
 def mk_sqlite_err(eng, st, e):
+    if e.code == -2:
+        return new_error(eng, st, "sql: database is closed")
     if e.code == -1:
         return eng.load(st, eng.global_ptr(st, "database/sql.ErrTxDone"))
     u = eng.ir.under(SQLITE_ERR_T)
@@ -1341,6 +1343,7 @@ def resolve_querier(eng, st, q):
             raise GoPanic("nil *sql.DB / *sql.Tx")
         o = st.heap[v.obj]
         if o[0] == "sqldb":
+            eng._closed_handle = len(o) > 2 and o[2] == "closed"
             return o[1], None
         return o[1], o[2]
     if tid == "*github.com/agglayer/aggkit/db.Tx":
@@ -1352,6 +1355,7 @@ def resolve_querier(eng, st, q):
 def querier_from_ptr(eng, st, p):
     o = st.heap[p.obj]
     if o[0] == "sqldb":
+        eng._closed_handle = len(o) > 2 and o[2] == "closed"
         return o[1], None
     return o[1], o[2]
 
@@ -1367,6 +1371,9 @@ def conv_args(eng, st, va):
 
 
 def run_sql(eng, st, path, txid, query, args):
+    if getattr(eng, "_closed_handle", False) and txid is None:
+        eng._closed_handle = False
+        raise SqlErr(-2, -2, "sql: database is closed")
     if not isinstance(query, str):
         raise Unsupported("SQL text is not concrete")
     stmts = parse_sql(query)
@@ -1472,8 +1479,15 @@ def sql_open(eng, st, fr, args, ins):
     return (Ptr(oid, ()), None)
 
 
-@intr("(*database/sql.DB).Close", "(*database/sql.DB).Ping")
+@intr("(*database/sql.DB).Ping")
+def sqldb_ping(eng, st, fr, args, ins):
+    return None
+
+
+@intr("(*database/sql.DB).Close")
 def sqldb_close(eng, st, fr, args, ins):
+    o = st.heap[args[0].obj]
+    st.heap[args[0].obj] = ("sqldb", o[1], "closed")  # later statements through this handle fail with "sql: database is closed"
     return None
 
 
@@ -1485,6 +1499,8 @@ def sqldb_set(eng, st, fr, args, ins):
 @intr("(*database/sql.DB).BeginTx", "(*database/sql.DB).Begin")
 def sqldb_begin(eng, st, fr, args, ins):
     path = st.heap[args[0].obj][1]
+    if len(st.heap[args[0].obj]) > 2:
+        return (None, new_error(eng, st, "sql: database is closed"))
     if len(args) > 1 and args[1] is not None:
         from models import ctx_cancelled
         if ctx_cancelled(eng, st, args[1]):
